@@ -105,7 +105,11 @@ type fmop struct {
 }
 
 type fact struct {
-	mops      []*fmop
+	// alias: a local pointer that is either the receiver (`z0 := z`) or a fresh Decimal (`z0 = new(Decimal)`);
+	// `z0.f` then means the receiver's field, or a scratch field (listed in scratch) that starts at its zero value
+	alias, aliasOf string
+	scratch        []string
+	mops           []*fmop
 	lean      string
 	fn        string // key in pkgInfo.funcs
 	doc       string
@@ -131,6 +135,7 @@ type ftr struct {
 type fctx struct {
 	locals map[string]ftype
 	sealed bool // an opaque kernel call without declared effects was made: nothing may follow
+	fresh  bool // the alias local points to a fresh Decimal on this path
 	indent string
 }
 
@@ -200,6 +205,10 @@ func unparen(e ast.Expr) ast.Expr {
 		}
 		e = p.X
 	}
+}
+
+func (t *ftr) isAliasField(src string) bool {
+	return t.f.alias != "" && strings.HasPrefix(src, t.f.alias+".")
 }
 
 func (t *ftr) param(src string) *fparam {
@@ -347,6 +356,15 @@ func lit(ty ftype, v constant.Value) (string, bool) {
 func (t *ftr) ex(e ast.Expr, c fctx) string {
 	e = unparen(e)
 	src := types.ExprString(e)
+	if t.isAliasField(src) {
+		if c.fresh {
+			if _, ok := c.locals[src]; ok {
+				return leanName(src)
+			}
+			return t.fail(e, "scratch field %s is not initialised (list it under scratch)", src)
+		}
+		src = t.f.aliasOf + src[len(t.f.alias):]
+	}
 	if p := t.param(src); p != nil {
 		if c.sealed {
 			return t.fail(e, "%s is read after an opaque call that may have changed it", src)
@@ -579,6 +597,18 @@ func (t *ftr) ret(vals []string, outcome int, c fctx) string {
 				fs = append(fs, fmt.Sprintf("%s := %s", p.name, p.name))
 			}
 		}
+		if t.f.alias != "" {
+			fs = append(fs, fmt.Sprintf("fresh := %v", c.fresh))
+			for _, fld := range t.f.scratch {
+				val := ""
+				if c.fresh {
+					val = leanName(t.f.alias + "." + fld)
+				} else if prm := t.param(t.f.aliasOf + "." + fld); prm != nil {
+					val = prm.name
+				}
+				fs = append(fs, fmt.Sprintf("%s := %s", leanName(t.f.alias+"."+fld), val))
+			}
+		}
 		return c.indent + "{ " + strings.Join(fs, ", ") + " }\n"
 	}
 	if outcome != 0 {
@@ -648,6 +678,17 @@ func (t *ftr) scanPanics(stmts []ast.Stmt) bool {
 func (t *ftr) assign(lhs ast.Expr, rhs func(ftype) string, define bool, c fctx) (string, fctx) {
 	lhs = unparen(lhs)
 	src := types.ExprString(lhs)
+	if t.isAliasField(src) {
+		if c.fresh {
+			ty, ok := c.locals[src]
+			if !ok {
+				t.fail(lhs, "scratch field %s is not initialised (list it under scratch)", src)
+				return "", c
+			}
+			return fmt.Sprintf("%slet %s : %s := %s\n", c.indent, leanName(src), ty.lean(), rhs(ty)), c
+		}
+		src = t.f.aliasOf + src[len(t.f.alias):]
+	}
 	if p := t.param(src); p != nil {
 		if !p.state && strings.ContainsAny(src, ".( ") {
 			t.fail(lhs, "assignment to %s, which is declared as a read-only parameter", src)
@@ -704,6 +745,26 @@ func (t *ftr) stmts(list []ast.Stmt, c fctx, k func(c fctx) string) string {
 	}
 	s, rest := list[0], list[1:]
 	next := func(c fctx) string { return t.stmts(rest, c, k) }
+	if t.f.alias != "" {
+		switch stmtString(t.p, s) {
+		case t.f.alias + " := " + t.f.aliasOf:
+			c.fresh = false
+			return fmt.Sprintf("%s-- %s := %s (same object)\n", c.indent, t.f.alias, t.f.aliasOf) + next(c)
+		case t.f.alias + " = new(Decimal)":
+			c.fresh = true
+			out := fmt.Sprintf("%s-- %s = new(Decimal)\n", c.indent, t.f.alias)
+			for _, fld := range t.f.scratch {
+				prm := t.param(t.f.aliasOf + "." + fld)
+				if prm == nil || !prm.typed {
+					return c.indent + t.fail(s, "scratch field %s has no typed counterpart %s.%s among the parameters", fld, t.f.aliasOf, fld) + "\n"
+				}
+				key := t.f.alias + "." + fld
+				c = c.with(key, prm.typ)
+				out += fmt.Sprintf("%slet %s : %s := %s\n", c.indent, leanName(key), prm.typ.lean(), prm.typ.zero())
+			}
+			return out + next(c)
+		}
+	}
 	for _, mo := range t.f.mops {
 		if stmtString(t.p, s) == mo.src {
 			mo.seen = true
@@ -965,7 +1026,24 @@ func (t *ftr) stmts(list []ast.Stmt, c fctx, k func(c fctx) string) string {
 					c.sealed = true
 				}
 				for _, h := range ef.havoc {
-					field, src := t.param(h[0]), t.param(h[1])
+					if t.isAliasField(h[0]) && c.fresh {
+						src := t.param(h[1])
+						ty, ok := c.locals[h[0]]
+						if src == nil || !ok {
+							return c.indent + t.fail(x, "bad havoc declaration %v", h) + "\n"
+						}
+						src.used = true
+						if !src.typed {
+							src.typ, src.typed = ty, true
+						}
+						out += fmt.Sprintf("%slet %s : %s := %s\n", c.indent, leanName(h[0]), ty.lean(), src.name)
+						continue
+					}
+					h0 := h[0]
+					if t.isAliasField(h0) {
+						h0 = t.f.aliasOf + h0[len(t.f.alias):]
+					}
+					field, src := t.param(h0), t.param(h[1])
 					if field == nil || !field.state || src == nil {
 						return c.indent + t.fail(x, "bad havoc declaration %v", h) + "\n"
 					}
@@ -1002,7 +1080,7 @@ func findSubExpr(n ast.Node, src string) ast.Expr {
 func restrict(m, outer map[string]ftype) map[string]ftype {
 	r := make(map[string]ftype, len(outer))
 	for k, v := range m {
-		if _, ok := outer[k]; ok {
+		if _, ok := outer[k]; ok || strings.Contains(k, ".") {
 			r[k] = v
 		}
 	}
@@ -1242,7 +1320,7 @@ func allFacts() []*fact {
 	fs := baseFacts()
 	// AddPre / SubPre: the receiver state at the kernel call (or at the return / panic)
 	for _, f := range baseFacts() {
-		if f.lean != "Add" && f.lean != "Sub" {
+		if f.lean != "Add" && f.lean != "Sub" && f.lean != "FMA" {
 			continue
 		}
 		f.lean += "Pre"
@@ -1250,7 +1328,7 @@ func allFacts() []*fact {
 		f.doc = "state of the receiver at the kernel call (tail ≠ 0), at the return or at the panic"
 		var keep []*fparam
 		for _, prm := range f.params {
-			if !strings.HasPrefix(prm.src, "<kernel") {
+			if !strings.HasPrefix(prm.src, "<") {
 				keep = append(keep, prm)
 			}
 		}
@@ -1368,6 +1446,16 @@ func baseFacts() []*fact {
 			"tv", "x.intMant().toUint64()#0", "tok", "x.intMant().toUint64()#1")},
 		{lean: "Uint64", fn: "Decimal.Uint64", params: ps("form", "x.form", "neg", "x.neg", "exp", "x.exp", "minPrec", "x.MinPrec()",
 			"rv", "x.intMant().toUint64()#0", "rok", "x.intMant().toUint64()#1")},
+		{lean: "FMA", fn: "Decimal.FMA", stateful: true, alias: "z0", aliasOf: "z", scratch: []string{"prec", "mode", "neg", "acc", "form"},
+			doc: "z0 is the receiver or a fresh scratch Decimal (fresh); kform/kacc = form and accuracy left in z0 by umul",
+			params: append(ps("zIsU", "z == u", "aliasZU", "alias(z.mant, u.mant)", "xForm", "x.form", "xNeg", "x.neg", "xPrec", "x.prec",
+				"yForm", "y.form", "yNeg", "y.neg", "yPrec", "y.prec", "uForm", "u.form", "uPrec", "u.prec",
+				"kform", "<form after umul>", "kacc", "<acc after umul>"),
+				st("zPrec", "z.prec", "zMode", "z.mode", "zNeg", "z.neg", "zAcc", "z.acc", "zForm", "z.form")...),
+			effects: []*feffect{
+				{src: "z.Mul(x, y)", code: 1},
+				{src: "z0.umul(x, y)", code: 3, havoc: [][2]string{{"z0.form", "<form after umul>"}, {"z0.acc", "<acc after umul>"}}},
+				{src: "z.Add(z0, u)", code: 2}}},
 		{lean: "SetInt64", fn: "Decimal.SetInt64", stateful: true, params: ps("x", "x"),
 			doc:     "args = the (neg, |x| as uint64, exp) handed to setBits64",
 			effects: []*feffect{{src: "z.setBits64", code: 1, capAll: true}}},
@@ -1672,6 +1760,14 @@ func genFacts(p *pkgInfo) (string, []string) {
 			for _, prm := range f.params {
 				if prm.state && prm.typed {
 					fmt.Fprintf(&sb, "  %s : %s\n", prm.name, prm.typ.lean())
+				}
+			}
+			if f.alias != "" {
+				sb.WriteString("  fresh : Bool\n")
+				for _, fld := range f.scratch {
+					if prm := t.param(f.aliasOf + "." + fld); prm != nil && prm.typed {
+						fmt.Fprintf(&sb, "  %s : %s\n", leanName(f.alias+"."+fld), prm.typ.lean())
+					}
 				}
 			}
 			sb.WriteString("  deriving DecidableEq, Repr\n\n")
